@@ -299,5 +299,47 @@ func c20ProgramChoices(r *Report) int {
 			os.RemoveAll(base)
 		}
 	}
+	// choices given as ONE txtar archive (each file a choice: `.evy` files are run, other files are the output itself):
+	// programs only, literal outputs only, and both kinds mixed in either order
+	type arch struct {
+		files [][2]string // name, content
+		truth string
+	}
+	for ai, a := range []arch{
+		{[][2]string{{"a.evy", "print \"hi\"\n"}, {"b.evy", "print \"ho\"\n"}, {"c.evy", "print \"h\"+\"i\"\n"}}, "a, c"},
+		{[][2]string{{"a.txt", "ho\n"}, {"b.txt", "hi\n"}, {"c.txt", "hi \n"}}, "b"},
+		{[][2]string{{"a.evy", "print \"x\"\n"}, {"b.txt", "hi\n"}, {"c.evy", "print \"hi\"\n"}}, "b, c"},
+		{[][2]string{{"a.txt", "hi\n"}, {"b.evy", "print \"hi\"\n"}, {"c.evy", "print \"ho\"\n"}}, "a, b"},
+		{[][2]string{{"a.txt", "print \"hi\" \n"}, {"b.evy", "print \"hi\"\n"}, {"c.txt", "ho\n"}}, "b"},
+	} {
+		base, err := os.MkdirTemp("", "verif-c20-")
+		if err != nil {
+			continue
+		}
+		dir := filepath.Join(base, fmt.Sprintf("coursex%d", ai), "unit", "exercise")
+		os.MkdirAll(dir, 0o777) //nolint
+		var ar strings.Builder
+		for _, f := range a.files {
+			ar.WriteString("-- " + f[0] + " --\n" + f[1])
+		}
+		os.WriteFile(filepath.Join(dir, "q.txtar"), []byte(ar.String()), 0o666) //nolint
+		md := "Which one prints this?\n\n```\nhi\n```\n\n- [answer](q.txtar \"evy:source\")\n"
+		for _, marked := range subsets {
+			fm := "type: question\nanswer-type: multiple-choice\nanswer: " + marked + "\n"
+			q, err := learn.NewQuestionModel(filepath.Join(dir, "q-"+strings.ReplaceAll(marked, ", ", "")+".md"), learn.WithRawMD(fm, md))
+			n++
+			r.Count(fmt.Sprintf("verify-txtar:%d:%s", ai, marked), true)
+			if err != nil {
+				r.Disagree(Case{Stream: "verify-txtar", Input: fm + "---\n" + md + "--- q.txtar\n" + ar.String(), Real: "cannot build: " + err.Error()})
+				continue
+			}
+			accepted := q.Verify() == nil
+			if accepted != (marked == a.truth) {
+				r.Violation(Case{Stream: "verify-txtar", Input: fm + "---\n" + md + "--- q.txtar\n" + ar.String(), Real: fmt.Sprintf("accepted=%v", accepted),
+					Spec: fmt.Sprintf("accepted exactly when the marked choices are those whose output is the question's output: %q", a.truth)})
+			}
+		}
+		os.RemoveAll(base)
+	}
 	return n
 }
